@@ -15,6 +15,7 @@ The observable statement is `Uquic.Spec.AmpMon.wireOk` on the wire trace.
 -/
 import Uquic.Proofs.AmpWire
 import Uquic.Proofs.AmpToken
+import Uquic.Generated.AmpShape
 
 namespace Uquic.Props.C14
 open Uquic.Model.Amp Uquic.Spec.AmpMon Uquic.Proofs.Amp
@@ -137,6 +138,20 @@ example :
     let L := runLoop .server false [.arrive 1200,
       .trigger false [⟨.any, [1200]⟩, ⟨.any, []⟩], .trigger false [⟨.ptoInitial, [1200]⟩, ⟨.ptoInitial, [1200]⟩, ⟨.any, [1200]⟩]]
     L.h.bytesSent = 3600 ∧ L.calls.length = 9 := by decide
+
+/-- the shape of connection.go that `SendLoop.lean` relies on, regenerated from the source (name-based call
+graph of the file): packets are registered with the handler only by `registerPackedShortHeaderPacket` and
+`sendPackedCoalescedPacket`; the only calls into the sending functions from outside `triggerSending`'s call
+tree are the run loop calling `triggerSending`, and `handleShortHeaderPacket` answering a 1-RTT packet from a
+new remote address with ONE path-probe packet (possible only with 1-RTT keys, i.e. after the handshake
+completed and the original address was validated; the amplification rule for NEW paths, RFC 9000 §8.2.1, is
+outside this property's model); and the only function that writes to the connection directly is
+`sendConnectionClose`.  A new send site makes this theorem, and with it the check, fail. -/
+theorem send_loop_shape :
+    Uquic.Gen.AmpShape.registeringFunctions = ["registerPackedShortHeaderPacket", "sendPackedCoalescedPacket"] ∧
+    Uquic.Gen.AmpShape.sendersOutsideTriggerSending =
+      ["handleShortHeaderPacket->registerPackedShortHeaderPacket", "run->triggerSending"] ∧
+    Uquic.Gen.AmpShape.directWriters = ["sendConnectionClose"] := by decide
 
 /-- the observable statement for the loop, FULL form: every datagram the connection writes while the
 client's address is unvalidated leaves strictly below the limit.  FALSE for the unchanged code, because
